@@ -230,7 +230,9 @@ fn rotate(
         _ => false, // Only case that can actually happen is (None, None)
     };
 
-    for i in (base..base + count - 1).rev() {
+    // `count` is at least 1 here; computing `base + count` first would overflow for a
+    // window that ends at u32::MAX
+    for i in (base..base + (count - 1)).rev() {
         let src = expand_env_vars(pattern.replace("{}", &i.to_string()));
         let dst = expand_env_vars(pattern.replace("{}", &(i + 1).to_string()));
 
@@ -281,6 +283,10 @@ impl FixedWindowRollerBuilder {
             // Hide {} in this error message from the formatting machinery in bail macro
             let msg = "pattern does not contain `{}`";
             bail!(msg);
+        }
+
+        if count > 0 && self.base.checked_add(count - 1).is_none() {
+            bail!("the last archive index (base + count - 1) does not fit in a u32");
         }
 
         let compression = match Path::new(pattern).extension() {
